@@ -301,7 +301,7 @@ PROPS = {
         "rule": "each evaluation = one relation instance (relation, architecture, type / lane count / list pair); all instances are enumerated, so every one is distinct and "
                 "non-trivial by construction (distinct cells are counted by hashing (relation, subject)); " + ALL22,
         "assumptions": COMMON_ASSUME,
-        "floor": {"quick": 20000, "thorough": 20000},
+        "floor": {"quick": 100000, "thorough": 100000},
         "exhaustive": {"quick": True, "thorough": True},
     },
     "C15": {
